@@ -1,8 +1,11 @@
 /-
 C16 — Integer recurrences denote the clipped arithmetic progression.
-Property statements only; helper lemmas live in `CylcModel/IntSeqLemmas.lean`.
+
+Property statements only; the proofs are one-liners over `CylcModel/IntSeqLemmas.lean`.
+`build f ex icp fcp` is the model of `IntegerSequence(text, icp, fcp)` for the
+recurrence form `f` with exclusion list `ex`; all integers are unbounded.
 -/
-import CylcModel.IntSeq
+import CylcModel.IntSeqLemmas
 namespace CylcModel.C16
 open CylcModel.IntSeq
 
@@ -11,11 +14,111 @@ def points_spec_full : Prop :=
   ∀ (f : Form) (icp : Int) (fcp : Option Int) (s : Seq) (x : Int),
     build f [] icp fcp = .ok s → s.isValid x = f.specMem icp fcp x
 
-/-- `points_spec_full` is false on the current code: `R1/0` from initial point 1 reports 0 valid. -/
+/-- `points_spec_full` is false on the current code: `R1/0` from initial point 1 reports 0 valid
+(known finding `oneoff-outside-context`). -/
 theorem oneoff_outside_counterexample : ¬ points_spec_full := by
   intro h
   have := h (.r1Start (.abs 0)) 1 none ⟨⟨0, some 0, none⟩, false, [], []⟩ 0 (by rfl)
   revert this
   decide
+
+/-- **Membership, exact reading of the code.** For every recurrence form, every exclusion list and every
+context, a point is valid iff it is in the progression the form denotes, inside `[icp, fcp]`
+(stepped forms; a one-off point is not checked against the context), and not excluded — where an
+exclusion recurrence is read in the context `[start, stop]` of the outer sequence. -/
+theorem points_spec_partial (f : Form) (ex : List ExclItem) (icp : Int) (fcp : Option Int) (s : Seq) (x : Int)
+    (h : build f ex icp fcp = .ok s) :
+    s.isValid x = (f.codeMem icp fcp x && !(exclCode ex s.core.start s.core.stop x)) :=
+  seq_valid_spec f ex icp fcp s x h
+
+/-- **Membership = the specification** whenever the progression is stepped, or is a single point
+inside the context. -/
+theorem points_spec_stepped (f : Form) (ex : List ExclItem) (icp : Int) (fcp : Option Int) (s : Seq) (x : Int)
+    (h : build f ex icp fcp = .ok s)
+    (hin : ∀ g, f.prog icp fcp = some g → g.step.isSome = true ∨ inContext icp fcp g.base = true) :
+    s.isValid x = (f.specMem icp fcp x && !(exclCode ex s.core.start s.core.stop x)) := by
+  rw [seq_valid_spec f ex icp fcp s x h]
+  congr 1
+  unfold Form.codeMem Form.specMem
+  cases hp : f.prog icp fcp with
+  | none => rfl
+  | some g =>
+    simp only
+    rcases hin g hp with h1 | h1
+    · cases hs : g.step with
+      | none => rw [hs] at h1; cases h1
+      | some k => simp
+    · cases hs : g.step with
+      | some k => simp
+      | none =>
+        simp only [Option.isNone_none, Bool.true_or, Bool.and_true]
+        by_cases hm : g.mem x = true
+        · have : x = g.base := by
+            unfold Prog.mem at hm; rw [hs] at hm; simpa using hm
+          rw [hm, this, h1]; rfl
+        · have : g.mem x = false := by simpa using hm
+          rw [this]; rfl
+
+example : ∃ s, build (.startIntv (.abs 0) 3) [.pt 6, .seq (.intv 4)] 2 (some 20) = .ok s ∧
+    s.isValid 9 = true ∧ s.isValid 6 = false ∧ s.isValid 4 = false := ⟨_, rfl, by decide⟩
+
+/-- the stop point of a built stepped sequence lies on the sequence, and the interval is positive -/
+theorem built_wellformed (f : Form) (icp : Int) (fcp : Option Int) (s : Seq)
+    (h : build f [] icp fcp = .ok s) :
+    s.hasExcl = false ∧ s.core.Aligned ∧ ∀ k, s.core.step = some k → 0 < k := by
+  simp only [build, bind, Except.bind, List.isEmpty_nil, if_true, pure, Except.pure] at h
+  split at h
+  · cases h
+  · rename_i c hc
+    injection h with h; subst h
+    exact ⟨rfl, build_aligned f icp fcp c hc, build_step_pos f icp fcp c hc⟩
+
+/-- **next**: for an exclusion-free stepped sequence and `p ≥ start - step`, `get_next_point p` is the
+least member greater than `p`, or `None` when there is none. -/
+theorem next_spec (f : Form) (icp : Int) (fcp : Option Int) (s : Seq) (k : Int) (fuel : Nat) (p : Int)
+    (h : build f [] icp fcp = .ok s) (hs : s.core.step = some k) (hp : s.core.start - k ≤ p) :
+    ∃ r, s.nextPoint (fuel + 1) p = some r ∧
+      (match r with
+       | some q => s.isValid q = true ∧ p < q ∧ ∀ y, p < y → y < q → s.isValid y = false
+       | none => ∀ y, p < y → s.isValid y = false) := by
+  obtain ⟨hx, -, hk⟩ := built_wellformed f icp fcp s h
+  exact next_spec_core s k hx hs (hk k hs) fuel p hp
+
+/-- **previous**: for `p ≤ stop + step`, `get_prev_point p` is the greatest member less than `p`, or `None`. -/
+theorem prev_spec (f : Form) (icp : Int) (fcp : Option Int) (s : Seq) (k : Int) (fuel : Nat) (p : Int)
+    (h : build f [] icp fcp = .ok s) (hs : s.core.step = some k)
+    (hp : ∀ e, s.core.stop = some e → p ≤ e + k) :
+    ∃ r, s.prevPoint (fuel + 1) p = some r ∧
+      (match r with
+       | some q => s.isValid q = true ∧ q < p ∧ ∀ y, q < y → y < p → s.isValid y = false
+       | none => ∀ y, y < p → s.isValid y = false) := by
+  obtain ⟨hx, hal, hk⟩ := built_wellformed f icp fcp s h
+  exact prev_spec_core s k hx hs (hk k hs) hal fuel p hp
+
+/-- **first**: `get_first_point p` is the least member `≥ p`, or `None` (any `p`). -/
+theorem first_spec (f : Form) (icp : Int) (fcp : Option Int) (s : Seq) (k : Int) (fuel : Nat) (p : Int)
+    (h : build f [] icp fcp = .ok s) (hs : s.core.step = some k) :
+    ∃ r, s.firstPoint (fuel + 1) p = some r ∧
+      (match r with
+       | some q => s.isValid q = true ∧ p ≤ q ∧ ∀ y, p ≤ y → y < q → s.isValid y = false
+       | none => ∀ y, p ≤ y → s.isValid y = false) := by
+  obtain ⟨hx, -, hk⟩ := built_wellformed f icp fcp s h
+  exact first_spec_core s k hx hs (hk k hs) fuel p
+
+/-- **start / stop**: of a non-empty stepped sequence are its least and greatest members
+(`stop = None` exactly when the model's stop is `none`, i.e. the sequence is unbounded). -/
+theorem start_stop_spec (f : Form) (icp : Int) (fcp : Option Int) (s : Seq) (k : Int) (fuel : Nat)
+    (h : build f [] icp fcp = .ok s) (hs : s.core.step = some k) (hne : ∃ y, s.isValid y = true) :
+    s.startPoint fuel = some (some s.core.start) ∧ s.isValid s.core.start = true ∧
+      (∀ y, s.isValid y = true → s.core.start ≤ y) ∧
+      s.stopPoint fuel = some s.core.stop ∧
+      (∀ e, s.core.stop = some e → s.isValid e = true ∧ ∀ y, s.isValid y = true → y ≤ e) := by
+  obtain ⟨hx, hal, hk⟩ := built_wellformed f icp fcp s h
+  exact start_stop_spec_core s k hx hs (hk k hs) hal fuel hne
+
+-- the hypotheses are satisfiable: `0/P3` from 2 to 20 is built, stepped, non-empty
+example : ∃ s, build (.startIntv (.abs 0) 3) [] 2 (some 20) = .ok s ∧ s.core.step = some 3 ∧
+    s.core.start = 3 ∧ s.core.stop = some 18 ∧ s.isValid 9 = true ∧
+    s.nextPoint 1 4 = some (some 6) ∧ s.prevPoint 1 21 = some (some 18) := ⟨_, rfl, by decide⟩
 
 end CylcModel.C16
